@@ -66,6 +66,10 @@ def run_schedule(texts, schedule):
 
     def work(i):
         try:
+            # the start of a parse (construction of the parser, the resets at the top of parse()) is a
+            # schedulable step of its own: it may come after another parser is half-way through
+            gate.wait_turn(threading.current_thread())
+            gate.step_done()
             p = CParser(lexer=Lx)
             raw[i] = py_parse_obj(texts[i], "p%d.c" % i, parser=p)
             results[i] = result_key(raw[i])
@@ -219,7 +223,7 @@ def run(ctx):
         n += 1
         if bad:
             ctx.violation("free-running threads: parser/generator %r produced a result different from its solo run" % bad, {"kind": "threads", "texts": texts})
-    ctx.rule("all schedules of length 6 (thorough 9) over two parsers at lexer-call granularity for pairs of short clashing-name inputs (scheduling lexer injected through lexer=, strict hand-off), random schedules for 2-4 longer programs, and free-running threads (4 parsers + generators, switch interval 1e-6 s); every result compared with the solo run, re-dumped after all parsers have finished (a returned AST must not change afterwards) and checked to share no node object with another parser's result")
+    ctx.rule("all schedules of length 6 (thorough 9) over two parsers at lexer-call granularity (the start of each parse - parser construction and the resets at the top of parse() - being a step of its own) for pairs of short clashing-name inputs (scheduling lexer injected through lexer=, strict hand-off), random schedules for 2-4 longer programs, and free-running threads (4 parsers + generators, switch interval 1e-6 s); every result compared with the solo run, re-dumped after all parsers have finished (a returned AST must not change afterwards) and checked to share no node object with another parser's result")
     ctx.count(n, nontrivial_n=n)
     ctx.sample({"kind": "schedule", "texts": SHORT[:2], "schedule": [0, 1, 1, 0, 0, 1]})
 
